@@ -110,6 +110,9 @@ def plan_call_unit(ctx):
     PlanSelf.lit = lit
     PlanSelf._gather = gather
     PlanSelf._call = call
+    from ujvc.units import real_method_fallback
+
+    PlanSelf.__getattr__ = real_method_fallback(PL, "Plan", env, native_loops="all", cut_loops=None)   # helper methods a refactoring may introduce
     s = PlanSelf()
     c = call(s, SF, FN, *pos_args, **kw_args)
     ok = type(c) is cls["Call"] and c.fn is FN and c.scope is SCOPE and c.stack_frame is SF and g.created == [c]
